@@ -318,6 +318,7 @@ def run_scheduled(case: Dict[str, Any]) -> Dict[str, Any]:
 
 class C18(Property):
     ID = "C18"
+    USES_TABLES = True
     SHAPE = [("antismash/common/subprocessing/base.py", q) for q in (
         "parallel_function", "_await_pool_results", "_WORKER_POLL_INTERVAL", "parallel_execute",
         "child_process", "verbose_child_process")] + [
@@ -329,6 +330,11 @@ class C18(Property):
         ("antismash/common/secmet/record.py", "Record.__slots__"),
         ("antismash/common/secmet/record.py", "Record.__getattr__"),
         ("antismash/common/secmet/record.py", "Record.__setattr__"),
+        ("antismash/common/secmet/record.py", "Record.__getstate__"),
+        ("antismash/common/secmet/record.py", "Record.__setstate__"),
+        ("antismash/common/secmet/record.py", "Record.__reduce__"),
+        ("antismash/common/secmet/record.py", "Record.__reduce_ex__"),
+        ("antismash/common/secmet/record.py", "Record.from_biopython"),
         ("antismash/common/secmet/features/cdscollection.py", "_SectionedCDSTuple.__new__"),
         ("antismash/common/secmet/features/cdscollection.py", "_SectionedCDSTuple.__reduce__"),
     ]
@@ -502,6 +508,43 @@ class C18(Property):
         return spec
 
     @staticmethod
+    def genbank_record(rng: random.Random, i: int, letters: bool = False) -> Dict[str, Any]:
+        """a record as GenBank text: DBLINK lines (-> SeqRecord.dbxrefs), CDS/gene/misc features (kept in
+           the wrapped SeqRecord as well), references-free header; optionally per-letter annotations"""
+        from io import StringIO
+        from Bio import SeqIO
+        from Bio.Seq import Seq
+        from Bio.SeqFeature import FeatureLocation, SeqFeature
+        from Bio.SeqRecord import SeqRecord
+        length = rng.choice([300, 600, 1200])
+        seq = "".join(rng.choice("ACGT" * 6 + "NRY") for _ in range(length))
+        dbxrefs = [f"BioProject:PRJNA{rng.randrange(10**5)}"]
+        if rng.random() < 0.7:
+            dbxrefs.append(f"BioSample:SAMN{rng.randrange(10**7)}")
+        if rng.random() < 0.3:
+            dbxrefs.append(f"Assembly:GCF_{rng.randrange(10**8)}.1")
+        rid = f"GBK{i:03d}{rng.randrange(1000)}"
+        bio = SeqRecord(Seq(seq), id=rid, name=rid, description=f"genbank record {i}",
+                        annotations={"molecule_type": "DNA", "topology": rng.choice(["linear", "circular"]),
+                                     "organism": f"Streptomyces sp. {i}", "source": f"Streptomyces sp. {i}",
+                                     "data_file_division": "BCT", "taxonomy": ["Bacteria", "Actinomycetota"]},
+                        dbxrefs=dbxrefs)
+        for n, start in enumerate(range(30, length - 120, 240)):
+            strand = 1 if n % 2 == 0 else -1
+            loc = FeatureLocation(start, start + 90, strand)
+            bio.features.append(SeqFeature(loc, type="gene", qualifiers={"locus_tag": [f"{rid}_{n}"]}))
+            bio.features.append(SeqFeature(loc, type="CDS", qualifiers={
+                "locus_tag": [f"{rid}_{n}"], "translation": ["M" + "A" * 28], "product": [f"protein {n}"],
+                "db_xref": [f"GeneID:{rng.randrange(10**6)}"]}))
+        bio.features.append(SeqFeature(FeatureLocation(5, 25, 1), type="misc_feature", qualifiers={"note": ["n"]}))
+        out = StringIO()
+        SeqIO.write(bio, out, "genbank")
+        spec: Dict[str, Any] = {"id": rid, "genbank": out.getvalue(), "index": i, "dbxrefs": dbxrefs}
+        if letters:
+            spec["letter_annotations"] = {"phred_quality": [rng.randrange(10, 60) for _ in range(length)]}
+        return spec
+
+    @staticmethod
     def colliding_ids(rng: random.Random) -> List[str]:
         """record ids that are pairwise different as given but meet once fix_record_name_id rewrites them"""
         stem = rng.choice(["Streptomyces", "Kitasatospora", "Micromonospora_sp"])
@@ -609,6 +652,16 @@ class C18(Property):
                 dup[-1]["id"] = dup[0]["id"]
                 cases.append({"kind": "prep", "cpus": k, "records": dup + rich})
                 cases.append({"kind": "prep", "cpus": k, "records": failing})
+        # records parsed from GenBank text: DBLINK cross references, the wrapped SeqRecord's own feature
+        # list, per-letter annotations — everything a Record wraps has to survive the boundary
+        for k in ([2, 3, 6, 16] if thorough else [2, rng.choice([3, 5, 8])]):
+            gbk = [self.genbank_record(rng, i) for i in range(rng.choice([2, 3, k + 1]))]
+            for func in ("identity", "annotate", "sanitise", "genefind"):
+                cases.append({"kind": "rec", "func": func, "cpus": k, "records": gbk})
+            lettered = [self.genbank_record(rng, i, letters=(i % 2 == 0)) for i in range(3)]
+            cases.append({"kind": "rec", "func": "identity", "cpus": k, "records": lettered})
+            cases.append({"kind": "rec", "func": "sanitise", "cpus": k, "records": lettered})   # raises alike
+            cases.append({"kind": "prep", "cpus": k, "records": gbk, "minlength": 1})
         # identifiers that only collide AFTER rewriting: the shared id set must be threaded through all records
         for k in ([2, 3, 4, 8, 16] if thorough else [2, rng.choice([3, 4, 6])]):
             for rep in range(3 if thorough else 2):
@@ -718,7 +771,7 @@ class C18(Property):
                 return None
             return {"kind": "workers", "func": case["func"], "records": obs["given"]}
         if kind == "prep":
-            if "recs" not in obs or any(spec.get("original_id") for spec in case["records"]):
+            if "recs" not in obs or any(spec.get("original_id") or spec.get("genbank") for spec in case["records"]):
                 return None
             return {"kind": "prep_ids", "cpus": case["cpus"], "allow_long": bool(case.get("allow_long_headers", False)),
                     "recs": [[spec["id"], spec.get("name") if spec.get("name") is not None else "<unknown name>"]
